@@ -58,7 +58,7 @@ def emit_basic(z: Zoo, two=False):
     out.append(f'  typedef {fe} F_;')
     out.append(f'  {m.name}& self() {{ return static_cast<{m.name}&>(*this); }}')
     for s in m.states:
-        out.append(E.emit_state(z, m, s))
+        out.append(E.emit_state(z, m, s, with_local=False))
     inits = ','.join(m.initial)
     out.append(f'  typedef mpl::vector<{inits}> initial_state;' if len(m.initial) > 1 else f'  typedef {inits} initial_state;')
     # atoms as member templates
